@@ -40,7 +40,11 @@ Record lst := {
 Inductive bad := Panic | Spin.
 
 Inductive event :=
-| EvDispatch (c : N) (tok : nat) (g : nat) (idx : N)   (* connection sent to worker generation g *)
+| EvDispatch (c : N) (tok : nat) (g : nat) (idx : N) (n : nat)
+    (* connection sent to worker generation g; ghost n = connections that worker had in progress before *)
+| EvSkip (g : nat) (n : nat) (pend : bool)
+    (* ghost: accept_one passed over worker g (flag clear); n = its connections in progress, pend = a
+       WorkerAvailable notice of it is waiting in the waker queue *)
 | EvDropNoWorker (c : N)                               (* "no workers": connection dropped *)
 | EvFaulted (idx : N)                                  (* ServerCommand::WorkerFaulted(idx) *)
 | EvConnFail (c : N) (tok : nat)                       (* client could not connect (path gone) *)
@@ -142,6 +146,9 @@ Fixpoint remove_conn (c : N) (l : list conn) : option (conn * list conn) :=
   | x :: t => if N.eqb (c_id x) c then Some (x, t)
               else match remove_conn c t with Some (y, t') => Some (y, x :: t') | None => None end
   end.
+
+Definition pending_notice (i : N) (q : list interest) : bool :=
+  existsb (fun x => match x with IAvail j => N.eqb i j | _ => false end) q.
 
 (* ---------- the environment: everything that is not the accept thread ---------- *)
 Inductive cmd := CPause | CResume | CStop.
@@ -284,7 +291,7 @@ Definition send_connection st (c : conn) (ys : ysched) : state * ysched * sres :
       | Some w =>
           if w_open w then
             (* next.send(conn) succeeded *)
-            let st1 := emit (upd_worker st g (set_w_queue w (w_queue w ++ [c]))) (EvDispatch (c_id c) (c_tok c) g (w_idx w)) in
+            let st1 := emit (upd_worker st g (set_w_queue w (w_queue w ++ [c]))) (EvDispatch (c_id c) (c_tok c) g (w_idx w) (length (w_queue w) + length (w_picked w))) in
             (* yield point: other threads run *)
             let st2 := env_steps st1 (hd [] ys) in
             let ys' := tl ys in
@@ -345,7 +352,8 @@ Fixpoint accept_one (fuel : nat) st (c : conn) (ys : ysched) : state * ysched :=
                     | (st', ys', SRetry c') => accept_one f st' c' ys'
                     end
                   else
-                    let st1 := do_set_next (av_set st0 (w_idx w) false) in
+                    let st1 := do_set_next (av_set (emit st0 (EvSkip g (length (w_queue w) + length (w_picked w))
+                                                                      (pending_notice (w_idx w) (wq st0)))) (w_idx w) false) in
                     if available (av st1) then accept_one f st1 c ys
                     else forced_send (S (length (handles st1))) st1 c ys
               end
